@@ -42,11 +42,11 @@ type nsLookup struct {
 }
 
 var (
-	nsOne        = big.NewInt(1)
-	nsMapPrefix  = new(big.Int).Lsh(big.NewInt(0xffff), 32)
-	nsMask32     = big.NewInt(0xffffffff)
-	nsMax128     = new(big.Int).Sub(new(big.Int).Lsh(nsOne, 128), nsOne)
-	nsMax32      = big.NewInt(0xffffffff)
+	nsOne       = big.NewInt(1)
+	nsMapPrefix = new(big.Int).Lsh(big.NewInt(0xffff), 32)
+	nsMask32    = big.NewInt(0xffffffff)
+	nsMax128    = new(big.Int).Sub(new(big.Int).Lsh(nsOne, 128), nsOne)
+	nsMax32     = big.NewInt(0xffffffff)
 )
 
 func nsBig(s string) *big.Int {
